@@ -4,6 +4,7 @@ import (
 	"fmt"
 	"io"
 	"net/http"
+	"strings"
 
 	"github.com/go-openapi/runtime/client"
 
@@ -45,6 +46,14 @@ func (f fixedRT) RoundTrip(req *http.Request) (*http.Response, error) {
 
 // runDrain executes one history under one chooser and checks model A.5.
 func runDrain(dc DrainCase, c *choice.Chooser) (class, what string, key string) {
+	defer func() {
+		if e := recover(); e != nil {
+			if msg, ok := e.(string); ok && strings.HasPrefix(msg, "choice:") {
+				panic(e) // the explorer's own hard error (replay divergence), not the code under test
+			}
+			class, what, key = "panic", fmt.Sprintf("the draining body panics: %v", e), ""
+		}
+	}()
 	data := drainData(dc.Len)
 	und := &doubles.Reader{Name: "underlying", Data: data, C: c, ZeroReads: 1}
 	if dc.Term == "ERR" {
